@@ -116,6 +116,13 @@ def run(ctx, col: Collector):
         elif any(('truthy', f'{m}.default') in g_ for g_ in gsets) or not gsets:
             col.bad('C03-column', 'render_column:DEFAULT-guard', f'DEFAULT is emitted under {[sorted(map(str, g_)) for g_ in gsets] or "no recognised test"}; a truthiness test drops '
                     f'the defaults 0, False and \'\'', node=fi.node, file=fi.file)
+        elif len(gsets) == 1 and (('none', f'{m}.default') in gsets[0] or any(
+                isinstance(a_, tuple) and ((a_[0] == 'eq' and f'{m}.default' in a_[1:]) or (a_[0] == 'not' and isinstance(a_[1], tuple) and a_[1][0] == 'eq'
+                                                                                           and f'{m}.default' in a_[1][1:])) for a_ in gsets[0])):
+            # the one place that writes DEFAULT is reached only when there is no default, or depends on the VALUE of the default
+            col.bad('C03-column', 'render_column:DEFAULT-guard', f'DEFAULT is emitted under {sorted(map(str, gsets[0]))}: the only place that writes the clause is '
+                    f'{"reached when the column has NO default" if ("none", m + ".default") in gsets[0] else "selected by the value of the default, so some defaults are not written"}',
+                    node=fi.node, file=fi.file)
         else:
             col.unk('C03-column', 'render_column:DEFAULT-guard', f'DEFAULT is emitted under {[sorted(map(str, g_)) for g_ in gsets]}; cannot reduce that to "default is not None"',
                     node=fi.node, file=fi.file)
